@@ -227,6 +227,23 @@ pub fn check_forward(rec: &Rec, garbage: &[u8], ctx: &mut Ctx) -> Result<(), Fai
             return cx.fail(ctx, "header_len", "len!=encoding", format!("header_len() = {} but the encoding has {} bytes", hl, e.len()));
         }
     }
+    // the small derived accessors of the structs announce what the reference encoding holds
+    {
+        let bad: Option<String> = match val {
+            Val::Udp(h) => (h.header_len_u16() as usize != e.len()).then(|| format!("UdpHeader::header_len_u16() = {}", h.header_len_u16())),
+            Val::Tcp(h) => (h.header_len_u16() as usize != e.len() || h.data_offset() != e[12] >> 4 || h.options.data_offset() != e[12] >> 4).then(|| format!("TcpHeader::header_len_u16() = {}, data_offset() = {}, options.data_offset() = {}; encoding: {} bytes, data offset nibble {}", h.header_len_u16(), h.data_offset(), h.options.data_offset(), e.len(), e[12] >> 4)),
+            Val::Ipv6(h) => (h.source_addr().octets()[..] != e[8..24] || h.destination_addr().octets()[..] != e[24..40]).then(|| format!("Ipv6Header::source_addr() / destination_addr() = {} / {}", h.source_addr(), h.destination_addr())),
+            Val::Macsec(h) => {
+                let unmodified = e[0] & 0x0c == 0;
+                let want = unmodified.then(|| u16::from_be_bytes([e[e.len() - 2], e[e.len() - 1]]));
+                (h.next_ether_type().map(|x| x.0) != want).then(|| format!("MacsecHeader::next_ether_type() = {:?}, the encoding says {:?}", h.next_ether_type(), want))
+            }
+            _ => None,
+        };
+        if let Some(m) = bad {
+            return cx.fail(ctx, "derived-accessor", "accessor!=encoding", m);
+        }
+    }
     {
         let mut w = FaultWriter::plain();
         match val.write(&mut w) {
